@@ -317,11 +317,12 @@ impl Prop for C03 {
         // ultra-long history for one replica (0.15% of runs): a compact generator feed instead of literal values
         let ultra = r.chance(0.0015);
         if ultra {
-            let len = loop {
-                let l = crate::feed::long_len(r);
-                if !exact || l < 200_000 {
-                    break l;
-                }
+            // the four length classes equally often (f64), the three affordable ones in exact mode
+            let len = match r.below(if exact { 3 } else { 4 }) {
+                0 => r.range(4_200, 20_000),
+                1 => r.range(66_000, 80_000),
+                2 => r.range(132_000, 150_000),
+                _ => r.range(1_050_000, 1_100_000),
             };
             let g = Feed::Gen { seed: r.next_u64(), shape: r.below(SHAPES.len()) as u8, len, scale: s_scale, positive: !exact, quant: if exact { s_scale / 64.0 } else { 0.0 } };
             sc.feeds.push(g);
